@@ -1163,7 +1163,7 @@ func runC16(p *Program, r *Report) {
 			"no bool field of Conn is stored true in writeFrame: nothing prevents data frames (msgWriter.write → writeFrame) or a second Close frame (handleControl → writeClose → writeControl → writeFrame) after a Close frame")
 		return
 	}
-	fkey := "Conn." + flag.Name()
+	fkey := "Conn." + fieldName(flag)
 	okState := true
 	detail := ""
 	for _, fa := range p.FieldAccesses(flag) {
